@@ -289,7 +289,12 @@ Section Raise.
     - apply (i_clen HI).
     - apply rz_dead.
     - apply (i_own HI).
-    - intros k Hk. rewrite rz_hbk. apply (i_key1 HI Hk).
+    - intros k Hk. change (k < at_cnt s) in Hk. rewrite rz_hbk.
+      destruct (i_key1 HI Hk) as [Hk1|Hz]; [left; exact Hk1|]. right.
+      assert (HnC : ~ C k).
+      { intros HCk. unfold C, K in HCk. rewrite (Hz (own a)) in HCk.
+        apply HnK. unfold K. lia. }
+      rewrite (rz_mo_notC Hk HnC). exact Hz.
     - intros k Hk. change (k < at_cnt s) in Hk. rewrite rz_hbk.
       destruct (rz_fields k) as [_ [Hs _]]. rewrite Hs. apply (i_seen HI Hk).
     - intros k Hk. change (k < at_cnt s) in Hk. apply (rz_K' Hk Hk). left. apply (i_hbmo HI Hk).
@@ -793,7 +798,7 @@ Section SeenAtFacts.
     - apply (i_clen HI).
     - intros k Hk. rewrite A in Hk. rewrite (F k ltac:(lia)). apply (i_dead HI Hk).
     - intros k Hk. rewrite A in Hk. apply (i_own HI Hk).
-    - intros k Hk. rewrite A in Hk. rewrite sa_hbk. apply (i_key1 HI Hk).
+    - intros k Hk. rewrite A in Hk. rewrite sa_hbk, sa_mo. apply (i_key1 HI Hk).
     - intros k Hk. rewrite A in Hk. rewrite sa_hbk.
       destruct (Nat.eq_dec k idx) as [e|n]; [subst k; exact Hseen | rewrite (F k n); apply (i_seen HI Hk)].
     - intros k Hk. rewrite A in Hk. apply sa_K. apply (i_hbmo HI Hk).
